@@ -232,6 +232,17 @@ R11 = {
  "C19": "the queue fed by Map's unjoined producer is closed by nothing else",
 }
 
+# Clauses added in round 13 (DESIGN.md §10.12).
+R13 = {
+ "C03": "no (nil record, nil error) return in Read or the helpers it reaches",
+ "C05": "a strictly converging exchange loop is followed by the middle-letter step",
+ "C06": "origin degrees: positions and subscripts are not mixed in min/max, Slice and Make",
+ "C07": "the padding guard admits a pad length of one",
+ "C08": "block boundaries in the traceback suppressed at the single first cell only",
+ "C11": "every buffer stored into m.chunk has capacity chunkSize",
+ "C12": "every buffer stored into m.chunk has capacity chunkSize",
+}
+
 NOT_APPLICABLE = {
 }
 
@@ -270,6 +281,10 @@ def main():
                 tech = tech + "; " + R11[pid]
                 text = text + " Round 11 (DESIGN §10.10) adds: " + R11[pid] + "."
                 ref = ref + ", §10.10"
+            if pid in R13:
+                tech = tech + "; " + R13[pid]
+                text = text + " Round 13 (DESIGN §10.12) adds: " + R13[pid] + "."
+                ref = ref + ", §10.12"
             text = text + " The thorough tier also replays the independently written behaviour-preserving refactorings of /verif/benign (DESIGN §10.8, §10.9, §10.11) and fails if one of them is reported."
             checks.append({
                 "property_id": pid,
